@@ -481,6 +481,8 @@ func (runInfo *runInfoStruct) runForStmt(stmt *ast.ForStmt) {
 	if value.Kind() == reflect.Interface && !value.IsNil() {
 		value = value.Elem()
 	}
+	// the loop runs over the value the subject had when the statement began
+	value = detachValue(value)
 
 	env := runInfo.env
 	runInfo.env = env.NewEnv()
